@@ -594,7 +594,14 @@ class IterativeIASolverBaseClass(IASolverBaseClass):
         # Method called before the _updateW method
         self._before_initialize_W_func()
 
-        self._W = self._closed_form_ia_solver.W
+        # The closed form solver returns receive filters with orthonormal
+        # columns (Frobenius norm sqrt(Ns)). As in the alt_min
+        # initialization, the iterative algorithms work with (and assert)
+        # receive filters with a Frobenius norm equal to one.
+        self._W = np.empty(self.K, dtype=np.ndarray)
+        for k in range(self.K):
+            Wk = self._closed_form_ia_solver.W[k]
+            self._W[k] = Wk / np.linalg.norm(Wk, 'fro')
 
     def _initialize_F_and_W_from_alt_min(self, Ns: IntOrIntSequence,
                                          P: np.ndarray) -> None:
